@@ -22,7 +22,7 @@ PROP = "C12"
 RULE = ("life: sequences of 5-14 steps drawn from load(file with 1-3 @service functions, 1-2 names each, supports_response "
         "none|optional|only) / unload / run-time define|redefine|delete inside driver functions / call(data, "
         "return_response) over contexts a,b,c, services pyscript.s1, pyscript.s2, test.s3, variables f,g,h; the bulk avoids "
-        "the four open hazard situations (two more were repaired and are ordinary cases now), dedicated scenario families inject exactly one of them each; every case is "
+        "the three open hazard situations (four more were repaired and are ordinary cases now), dedicated scenario families inject exactly one of them each; every case is "
         "run under one subsystem and alternates legacy/new.  out: entry point x subsets of {context, blocking, "
         "return_response, limit, plain} with right- and wrong-typed values x target supports_response.  "
         "Non-trivial = at least one registration; distinct by payload.")
@@ -100,22 +100,26 @@ def hazards(p):
     d = Decls()
     evalowner = {}       # svc -> (ctx, fn) under which the new subsystem registered it
     out = []
-    new = not p["legacy"]
     for i, o in enumerate(p["ops"]):
         k = o["k"]
         defs = []
         if k == "load":
             d.unload(o["ctx"])
             defs = [(o["ctx"], None, df["var"], df["gen"], [tuple(x) for x in df["decl"]]) for df in o["defs"]]
-            seenv, seens = set(), set()
-            for (_c, _f, var, _g, decl) in defs:
-                if var in seenv and new:
-                    out.append((i, "redefined-at-load", {s for s, _ in decl}))
-                seenv.add(var)
-                for s, _ in set(decl):
-                    if s in seens and new:
-                        out.append((i, "load-start-order", {s}))
-                    seens.add(s)
+            # (the same function defined twice in a file – C12-F4 – and the set-order start of two functions declaring
+            #  the same service – C12-F5 – were repaired in /repo: no longer hazards, judged like anything else)
+            # What is left (C12-F5b): the managers' start tasks run concurrently and a manager awaits between its
+            # decorators, so an EARLIER function that declares a shared service after another decorator may register it
+            # after the LATER function did.
+            if not p["legacy"]:
+                last = {}
+                for j, (_c, _f, var, _g, _decl) in enumerate(defs):
+                    last[var] = j                      # a function defined twice: only the last definition is started
+                live = [defs[j] for j in sorted(last.values())]
+                for a in range(len(live)):
+                    for pos, (sv, _r) in enumerate(live[a][4]):
+                        if pos >= 1 and any(sv == s2 for later in live[a + 1:] for s2, _ in later[4]):
+                            out.append((i, "load-start-interleave", {sv}))
         elif k == "rundef":
             defs = [(o["ctx"], o["fn"], o["var"], o["gen"], [tuple(x) for x in o["decl"]])]
         for (ctx, fn, var, gen, decl) in defs:
@@ -213,8 +217,8 @@ class LifeGen:
                 self.evalowner.pop(s)
         defs, used, usedv = [], set(), set()
         for _ in range(r.choice([1, 1, 2, 3])):
-            free = [s for s in self.free_for(ctx, None) if s not in used or self.legacy]
-            vs = [v for v in VARS if v not in usedv or self.legacy]
+            free = self.free_for(ctx, None)
+            vs = list(VARS)
             if not free or not vs:
                 break
             names = r.sample(free, min(len(free), r.choice([1, 1, 2])))
@@ -308,6 +312,10 @@ def hazard_cases(rng, legacy):
     fam.append(("load-start-order", [
         {"k": "load", "ctx": c1, "defs": [{"var": v1, "gen": 1, "decl": [[s1, "optional"]]},
                                           {"var": v2, "gen": 2, "decl": [[s1, "only"]]}]}] + calls_for([s1], rng)))
+    sa, sb = "test.s3", rng.choice(["pyscript.s1", "pyscript.s2"])
+    fam.append(("load-start-interleave", [
+        {"k": "load", "ctx": c1, "defs": [{"var": v1, "gen": 1, "decl": [[sa, R()], [sb, "optional"]]},
+                                          {"var": v2, "gen": 2, "decl": [[sb, "only"]]}]}] + calls_for([sb], rng)))
     fam.append(("refused-name-aborts-others", [
         {"k": "load", "ctx": c1, "defs": [{"var": v1, "gen": 1, "decl": [[s1, R()]]}]},
         {"k": "load", "ctx": c2, "defs": [{"var": v1, "gen": 2, "decl": [[s1, R()], [s2, R()]]}]}] + calls_for([s1, s2], rng) + [
